@@ -8,7 +8,6 @@ package internal
 //     removal listener, hybrid store) with the hooks inert, meant to be run under the race detector.
 
 import (
-	"bytes"
 	"context"
 	"fmt"
 	"path/filepath"
@@ -128,7 +127,7 @@ func TestVerif_C19Locks(t *testing.T) {
 		h.tickNow()
 		c0 := h.client("c0")
 		un := c0.register()
-		vTimed(3*time.Second, c0.Wait)
+		c0.timed(3*time.Second, c0.Wait)
 		un()
 		h.shutdown(false)
 	}
@@ -140,7 +139,16 @@ func TestVerif_C19Race(t *testing.T) {
 	if vEnv("VERIF_OUT", "") == "" {
 		t.Skip("harness test")
 	}
-	SetVerifHandler(nil)
+	// the only hook in use: a plain sleep (no synchronisation) where a loading Get sits between its map
+	// lookup and the single-flight section, and where a reader is about to publish into the read buffer,
+	// so that unlocked accesses next to lock boundaries overlap other goroutines' writes
+	var hd VerifHandler = func(point int, a, b, c any, n []int64) {
+		if point == VpSfLock || point == VpSfLeader {
+			time.Sleep(150 * time.Microsecond)
+		}
+	}
+	SetVerifHandler(hd)
+	defer SetVerifHandler(nil)
 	rounds := vEnvInt("VERIF_N", 6)
 	for round := 0; round < rounds; round++ {
 		var notified atomic.Int64
@@ -193,8 +201,7 @@ func TestVerif_C19Race(t *testing.T) {
 					case x < 84:
 						s.Wait()
 					case x < 88:
-						var buf bytes.Buffer
-						s.Persist(1, &buf)
+						s.Persist(1, &vSlowWriter{})
 					case x < 92:
 						if sec != nil {
 							s.GetWithSecodary(k)
@@ -214,4 +221,13 @@ func TestVerif_C19Race(t *testing.T) {
 		wg.Wait()
 		s.Close()
 	}
+}
+
+// vSlowWriter discards what is written, slowly: SaveCache stays inside its critical section for a while.
+type vSlowWriter struct{ n int }
+
+func (w *vSlowWriter) Write(p []byte) (int, error) {
+	w.n += len(p)
+	time.Sleep(100 * time.Microsecond)
+	return len(p), nil
 }
